@@ -12,6 +12,7 @@ import (
 	"sort"
 	"strconv"
 	"strings"
+	"sync"
 	"syscall"
 	"time"
 
@@ -73,6 +74,42 @@ func reportHang(what string, m interface{}, data []byte) {
 	os.Exit(97)
 }
 
+// heldErrors: the errors Unmarshal returned recently, kept as a caller collecting the failures of a batch keeps them, with
+// the text each had when it was returned. An error value is the caller's from then on: later calls must not rewrite it.
+var heldErrors struct {
+	sync.Mutex
+	errs  []error
+	texts []string
+}
+
+func holdError(err error) {
+	heldErrors.Lock()
+	defer heldErrors.Unlock()
+	if len(heldErrors.errs) >= 8 {
+		heldErrors.errs, heldErrors.texts = heldErrors.errs[1:], heldErrors.texts[1:]
+	}
+	heldErrors.errs, heldErrors.texts = append(heldErrors.errs, err), append(heldErrors.texts, err.Error())
+}
+
+// staleError reports a held error whose text is no longer what it was when Unmarshal returned it ("" if none)
+func staleError() (res string) {
+	heldErrors.Lock()
+	defer heldErrors.Unlock()
+	defer func() {
+		if rr := recover(); rr != nil {
+			res = "PANIC in Error() of a held error"
+		}
+	}()
+	for i, e := range heldErrors.errs {
+		if now := e.Error(); now != heldErrors.texts[i] {
+			was := heldErrors.texts[i]
+			heldErrors.texts[i] = now
+			return fmt.Sprintf("was %q, now %q", was, now)
+		}
+	}
+	return ""
+}
+
 func safeUnmarshal(data []byte, m picobuf.Message) (res string) {
 	done := make(chan string, 1)
 	go func() {
@@ -85,6 +122,7 @@ func safeUnmarshal(data []byte, m picobuf.Message) (res string) {
 		}()
 		if err := picobuf.Unmarshal(data, m); err != nil {
 			r = "err:" + strings.ReplaceAll(err.Error(), "\t", " ")
+			holdError(err)
 			return
 		}
 		r = "ok"
